@@ -14,6 +14,16 @@ CHECKS = {
    note=TB + "Three fallbacks (AdaptiveCountUnique x2, BitmapRemove shrink, AddRange shortcut) are accepted as correct by reading; free(NULL) is a no-op; 10 known findings (discarded varintBitmapAdd/Remove status) listed in known_findings.json.",
    tech="static analysis: allocation typestate dataflow + failure-edge reachability on LLVM IR"),
 }
+CHECKS.update({
+ "C08": dict(engine="E-PTS + E-TABLE + E-ALLOC(R4)", cat="other", ref="DESIGN.md 4/C08",
+   text="Three necessary structural clauses of the set behaviour: operands of the set algebra and of every reader are deep-immutable (no store reaches memory rooted at a const bitmap, including through the captured iterator); every switch on the container type names all three enumerators; no mutator frees the live container without having read it or being dominated by an emptiness test. Set semantics under histories, change reports and iterator order are NOT decided.",
+   note=TB + "Set equality with a mathematical model is a behavioural property over histories and is out of reach of a sound static argument here; only the named clauses are claimed.",
+   tech="static analysis: points-to Mod sets, switch-table exhaustiveness, free-without-read dataflow on LLVM IR"),
+ "C15": dict(engine="E-PTS + E-UNINIT", cat="other", ref="DESIGN.md 4/C15, 3/E-UNINIT",
+   text="S1: no mutable static storage and no stateful libc callee anywhere in the linked library. S2: interprocedural definite-initialisation dataflow at byte granularity over every stack and fixed-size heap object: each load, callee read-before-write, struct copy-out and constructor return is an obligation that the bytes were written on every path. Array cells (variable index) are not decided.",
+   note=TB + "Callee summaries (upward-exposed reads, must-writes per return class) are specialised on constant integer arguments; exhaustive enum switches are assumed exhaustive only for objects received through parameters.",
+   tech="static analysis: must-initialised dataflow with callee summaries + Mod-set analysis on LLVM IR"),
+})
 NA = {
  "C02": "losslessness of array codecs is value-level equality after arithmetic; no clause has a shape in the code that static analysis can decide (DESIGN.md 4/C02)",
 }
